@@ -432,6 +432,64 @@ def cubes_gen(tier, seed):
     return out
 
 
+REUSE_RULES = [
+    {'p': 'rule:adm and not role:aud or rule:own', 'adm': 'role:admin',
+     'own': 'role:owner'},
+    {'p': 'not rule:adm or (rule:own and rule:adm)', 'adm': 'role:admin',
+     'own': 'role:owner or role:aud'},
+    {'p': [['rule:adm', 'role:aud'], ['rule:own']], 'adm': 'role:admin',
+     'own': 'not role:owner'},
+    {'p': 'rule:own', 'own': 'rule:adm', 'adm': 'role:admin and role:aud'},
+]
+REUSE_ROLES = ['admin', 'owner', 'aud']
+
+
+def run_reuse(ctx, ri, steps):
+    """Both observation points of the property on ONE enforcer, in any
+    order, each time with its own credentials: Enforcer.enforce(name, ...)
+    and the parsed tree called as check(target, creds, enforcer).  Every
+    observation must be the Boolean value for the credentials given to it
+    (nothing is carried over from an earlier evaluation)."""
+    from oslo_policy import policy
+    common.set_ctx(ctx)
+    texts = REUSE_RULES[ri]
+    enf = common.mk_enforcer(rules=policy.Rules.from_dict(dict(texts)))
+    tree = enf.rules['p']
+    trace = []
+    for i in range(steps):
+        how = str(ctx.choice('how%d' % i, ['enforce', 'direct']))
+        roles = ctx.roles('r%d' % i, REUSE_ROLES)
+        creds = {'roles': roles}
+
+        def leaf(t, i=i):
+            if t.startswith('rule:'):
+                return body(t[5:])
+            return ctx.zvar('r%d.%s' % (i, t.split(':', 1)[1]))
+
+        def body(name):
+            v = texts[name]
+            if isinstance(v, list):
+                return z3.Or(*[z3.And(*[leaf(x) for x in inner])
+                               for inner in v])
+            return boolang.text_formula(v, leaf)
+        want = body('p')
+        if how == 'enforce':
+            s = ctx.summarize(lambda: bool(enf.enforce('p', {}, creds)))
+        else:
+            s = ctx.summarize(lambda: bool(tree({}, creds, enf)))
+        trace.append(how)
+        ctx.observe('obs%d' % i, s)
+        common.require_decision(ctx, s, want, 'reuse:decision',
+                                detail={'rules': texts,
+                                        'trace': list(trace)})
+    ctx.cover('reuse:observed')
+
+
+def cubes_reuse(tier, seed):
+    return [{'ri': i, 'steps': n} for i in range(len(REUSE_RULES))
+            for n in ((2,) if tier == 'quick' else (2, 3))]
+
+
 DEEP_CONTEXTS = ['{}', 'sym:b and {}', '{} or sym:c', 'sym:b or {} and sym:c',
                  '(sym:b and {}) or sym:c', 'not ({} and sym:b)']
 
@@ -513,6 +571,7 @@ def cubes_deep(tier, seed):
 
 
 HARNESSES = {
+    'reuse': {'fn': run_reuse, 'cubes': cubes_reuse},
     'deep': {'fn': run_deep, 'cubes': cubes_deep},
     'tokens': {'fn': run_tokens, 'cubes': cubes_tokens},
     'lexical': {'fn': run_lexical, 'cubes': cubes_lexical},
@@ -524,7 +583,7 @@ REQUIRED_COVER = ['tokens:accepted', 'tokens:rejected',
                   'tokens:not-before-group', 'tokens:A-or-B-and-C',
                   'lexical:shape0', 'lexical:shape4', 'lists:outer0',
                   'lists:outer2', 'gen:path', 'gen:summary', 'deep:nots',
-                  'deep:groups', 'deep:flat']
+                  'deep:groups', 'deep:flat', 'reuse:observed']
 
 
 def cube_weight(hname, params):
@@ -540,6 +599,12 @@ def cube_weight(hname, params):
 def evidence(tier):
     return {
         'bounds': {
+            'reuse': '%d rule sets with rule: leaves; %s observations on '
+                     'one enforcer, each either Enforcer.enforce or the '
+                     'parsed tree called directly, each with its own '
+                     'symbolic role set' % (len(REUSE_RULES),
+                                            '2' if tier == 'quick'
+                                            else '2-3'),
             'deep': 'chains of k stacked not (plain, around a grouped leaf, '
                     'each level grouped), k nested groups and flat and/or '
                     'chains of k operands, k in %s, each inside %d symbolic '
